@@ -187,6 +187,67 @@ def eval_short_table(case):
     return OK(outcome=(w, centre, m, tuple(np.round(bf, 6))), nontrivial=len(df) < m and bool(bf.any()))
 
 
+def eval_many_runs(case):
+    """Synthetic burst_fraction columns with MANY runs of supra-threshold cycles (see C08 many-runs) through detect_bursts_amp."""
+    import pandas as pd
+    from bycycle.burst import detect_bursts_amp
+    from bcmc.props.C08 import RUN_PATTERNS
+    R, pi, lo = case
+    lens, gaps = RUN_PATTERNS[pi]
+    q = [False]
+    for r in range(R):
+        q += [True] * lens[r % len(lens)] + [False] * gaps[r % len(gaps)]
+    q += [True] * 6
+    bf = [(1. if i % 3 else .75) if ok else lo for i, ok in enumerate(q)]
+    nev = 0
+    for thr in (.75, .5):
+        for m in (2, 3, 4, 5):
+            exp = min_run_filter([v >= thr for v in bf], m)
+            got = [bool(x) for x in detect_bursts_amp(pd.DataFrame({'burst_fraction': bf}), burst_fraction_threshold=thr, min_n_cycles=m)['is_burst']]
+            nev += 1
+            if got != exp:
+                bad = [i for i in range(len(q)) if got[i] != exp[i]]
+                return VIOL({'kind': 'amp', 'what': 'labels-many-runs', 'pattern': pi, 'm': m}, '%d runs (pattern %s), min_n_cycles=%d, threshold %g: labels '
+                            'differ from the run filter of burst_fraction >= threshold from cycle %d on' % (R, lens, m, thr, bad[0]), evals=nev)
+    return OK(outcome=(R, pi, lo), nontrivial=True, evals=nev)
+
+
+def eval_long(case):
+    """Long real-valued recordings: burst_fraction = inclusive-window mean of the detector mask, labels = run filter, for three
+    routes of the minimum and two thresholds."""
+    from neurodsp.burst import detect_bursts_dual_threshold
+    from bycycle.features import compute_features
+    w, (centre, at) = case
+    at = tuple(at)
+    o = S.resolve((S.LONG_DECL[w],) + (('trough',) if centre == 'trough' else ()))
+    sig = S.make_signal(w, o)
+    fs, fr = o['fs'], o['f_range']
+    sc = sample_cols(centre)
+    nev = 0
+    for tm, bm, bft in ((None, None, .5), (2, None, 1), (None, 4, .5), (4, 2, .9)):
+        m = bm if bm is not None else (tm if tm is not None else 3)
+        thr = {'burst_fraction_threshold': bft}
+        bk = {'amp_threshes': at}
+        if tm is not None:
+            thr['min_n_cycles'] = tm
+        if bm is not None:
+            bk['min_n_cycles'] = bm
+        df = compute_features(np.array(sig), fs, fr, center_extrema=centre, burst_method='amp', threshold_kwargs=dict(thr), burst_kwargs=dict(bk))
+        nev += 1
+        mask = detect_bursts_dual_threshold(sig, fs, at, fr, min_n_cycles=m)
+        bf = np.array([mask[int(a):int(b) + 1].mean() for a, b in zip(df[sc['last']], df[sc['next']])])
+        sgn = {'kind': 'amp', 'centre': centre, 'route': [tm, bm], 'long': True}
+        if not same_values(df['burst_fraction'].to_numpy(), bf):
+            return VIOL(dict(sgn, what='burst_fraction'), 'burst_fraction is not the inclusive-window mean of the detector mask (minimum %s)' % m, evals=nev)
+        exp = min_run_filter([v >= bft for v in bf], m)
+        got = [bool(x) for x in df['is_burst']]
+        if got != exp:
+            bad = [i for i in range(len(exp)) if got[i] != exp[i]]
+            return VIOL(dict(sgn, what='labels'), 'labels are not the run filter (minimum %s) of burst_fraction >= %s: %d rows differ, first %d'
+                        % (m, bft, len(bad), bad[0]), evals=nev)
+    return OK(outcome=(w, centre, at, len(df), int(sum(got))), nontrivial=bool(((bf > 0) & (bf < 1)).any()), evals=nev)
+
+
 def evaluate_full(case):
     return evaluate(case, FULL=True)
 
@@ -201,6 +262,12 @@ def spaces(tier, seed):
                              describe='8-letter words with boundary 12: tables with fewer rows than min_n_cycles'),
                 ProductSpace('W(4,5)xroutes', S.word_dims(al, 5) + [leaf], evaluate,
                              bounds={'letters': al, 'routes': 16, 'durations': 2, 'amp_threshes': AMP_THRESHES})]
+    Rs = [3, 40] + list(range(124, 132)) + list(range(252, 260)) + [511, 512, 513, 1023, 1024, 1025] + ([] if tier == 'quick' else list(range(96, 124)) + [2047, 2048, 4096])
+    out.append(ProductSpace('many-runs', [Rs, [0, 1, 2, 4], [0., .4995]], eval_many_runs,
+                            describe='synthetic burst_fraction columns with up to %d runs x 4 run-length patterns, through detect_bursts_amp' % Rs[-1]))
+    from bcmc.explore import ListSpace
+    out.append(ListSpace('long-recordings', [[w, (c, (.5, 1.))] for w in ('@A', '@B', '@D') for c in ('peak', 'trough')], eval_long,
+                         describe='long real-valued recordings (660 / 1430 / 200 cycles, 200 samples per cycle) x centring: routes and region grid'))
     if tier != 'quick':
         leaf = [(c, a) for c in ('peak', 'trough') for a in AMP_THRESHES]
         out.append(ProductSpace('W(3,5)xroutes-full', S.word_dims(S.alphabet(3), 5) + [leaf], evaluate_full,
